@@ -19,7 +19,7 @@ var (
 )
 
 // Trees whose sibling names share string prefixes.
-var verifRecPaths = [...]string{"/r", "/r/dir1", "/r/dir10", "/r/dir1/x", "/r/sub", "/r/sub2", "/r2", "/r2/dir1", "/r/dir1/x/y"}
+var verifRecPaths = [...]string{"/r", "/r/dir1", "/r/dir10", "/r/dir1/x", "/r/sub", "/r/sub2", "/r2", "/r2/dir1", "/r/dir1/x/y", "/r/sub/r/sub"}
 
 func verifSetupRec(w *inotify, n int) {
 	enableRecurse = true
